@@ -36,6 +36,7 @@ func falseEdgeStarts(fx *Facts, call *ssa.Call) []cfgPos {
 func runC03(c *Ctx) {
 	runC03CloneRecursion(c)
 	runC03StaleTearDown(c)
+	runC03OrderCountsLikeEviction(c)
 	p, fx := c.P, c.Fx
 	runC03Ready(c)
 	runC03Clean(c)
@@ -920,4 +921,55 @@ func runC03StaleTearDown(c *Ctx) {
 			fmt.Sprintf("the pods evicted for a stale gang are selected by a status set (%#x) that misses an active status (required %#x, e.g. Binding or Pipelined): such a pod survives the tear-down and runs alone below the gang's minimum", accepted, required))
 	}
 	c.Floor("O15", "RET tear-down selections", n, 1)
+}
+
+// runC03OrderCountsLikeEviction (O16): which pod set of an elastic gang gives up a pod first is decided by the reverse
+// of the pod-set order; the eviction selection itself counts active-ALLOCATED pods against the minimum (O5). The order
+// must count the same way: in PodSetOrderFn the number compared with GetMinAvailable() comes from
+// GetNumActiveAllocatedTasks(). Counting terminating pods too makes a pod set that sits exactly at its minimum look
+// above it, it is shrunk first and falls below its minimum while the rest of the gang keeps running.
+func runC03OrderCountsLikeEviction(c *Ctx) {
+	f := c.Anchor("O16", "pkg/scheduler/plugins/subgrouporder", "", "PodSetOrderFn")
+	if f == nil {
+		return
+	}
+	n := 0
+	for _, h := range c.P.deepFind(f, func(in ssa.Instruction) bool {
+		b, ok := in.(*ssa.BinOp)
+		if !ok {
+			return false
+		}
+		switch b.Op {
+		case token.LSS, token.LEQ, token.GTR, token.GEQ:
+		default:
+			return false
+		}
+		hasMin := func(v ssa.Value) bool {
+			isMin := func(x *Term) bool { return x.Op == "call" && x.Fn != nil && x.Fn.Name() == "GetMinAvailable" }
+			return isMin(termOf(v)) || termOf(v).contains(isMin)
+		}
+		// a count on one side, the minimum on the other (not the comparison of two ratios)
+		return hasMin(b.X) != hasMin(b.Y)
+	}, 1) {
+		b := h.In.(*ssa.BinOp)
+		n++
+		counted := ""
+		for _, side := range []ssa.Value{b.X, b.Y} {
+			t := termOf(side)
+			if t.contains(func(x *Term) bool { return x.Op == "call" && x.Fn != nil && x.Fn.Name() == "GetMinAvailable" }) {
+				continue
+			}
+			isCount := func(x *Term) bool {
+				if x.Op == "call" && x.Fn != nil && strings.HasPrefix(x.Fn.Name(), "GetNum") {
+					counted = x.Fn.Name()
+				}
+				return false
+			}
+			isCount(t)
+			t.contains(isCount)
+		}
+		c.Check(counted == "GetNumActiveAllocatedTasks", "O16", "SIBLING", funcKey(f)+": the pod-set order compares active-allocated pods with the minimum", instrPos(b), "GetNumActiveAllocatedTasks() ⋈ GetMinAvailable()",
+			"the pod-set order measures a pod set against its minimum with "+counted+" while the eviction selection counts active-allocated pods: a pod set at its minimum that still has terminating pods looks above it, is chosen for the next elastic shrink and drops below its minimum")
+	}
+	c.Floor("O16", "SIBLING minimum comparisons of the pod-set order", n, 2)
 }
